@@ -63,6 +63,8 @@ ENGINES = {
         ("inst.cpp", {"VF_KEY": "uint16_t", "VF_KEYID": "u16", "VF_SET": "4"}),
         ("e_dynamic.cpp", {})]},
     "e_cif": {"dir": "e_cif", "units": [("e_cif.cpp", {}), ("$REPO/c-interface/cpgm.cpp", {})]},
+    "e_reject": {"dir": "e_reject", "units": [("e_reject.cpp", {}), ("reject_static.cpp", {}), ("reject_dynamic.cpp", {}), ("reject_misc.cpp", {}),
+                                               ("$REPO/c-interface/cpgm.cpp", {})]},
     "e_variants": {"dir": "e_variants", "units": [
         ("inst.cpp", {"VF_KEY": "uint8_t", "VF_KEYID": "u8", "VF_KEYBITS": "8"}),
         ("inst.cpp", {"VF_KEY": "uint16_t", "VF_KEYID": "u16", "VF_KEYBITS": "16"}),
@@ -101,6 +103,8 @@ CHECKS = {
     "C15": {"engine": "e_dynamic",
             "quick": {"shards": 8, "cases": 1000}, "thorough": {"shards": 16, "cases": 20000}},
     "C18": {"engine": "e_cif",
+            "quick": {"shards": 8, "cases": 2500}, "thorough": {"shards": 16, "cases": 60000}},
+    "C20": {"engine": "e_reject",
             "quick": {"shards": 8, "cases": 2500}, "thorough": {"shards": 16, "cases": 60000}},
     "C07": {"engine": "e_static",
             "quick": {"shards": 8, "cases": 4000}, "thorough": {"shards": 16, "cases": 120000}},
@@ -185,6 +189,10 @@ DESCR = {
                      "run-time epsilon judged by the C01/C02 oracle, NULL for reserved data; dynamic call histories judged against std::map incl. the iterator protocol",
             "design_ref": "DESIGN.md section 6 C18", "note": "trusted: std::lower_bound / std::map; dynamic_pgm_index_uint64 is declared in cpgm.h but not defined by cpgm.cpp and is not exercised",
             "technique": "property-based testing (static) and model-based stateful testing (dynamic) through the C ABI"},
+    "C20": {"level": "generated-input search over (valid input, one violation, position): every listed precondition violation must be answered with the documented "
+                     "exception (NULL from C) at every generated position, and a rejected insert must leave the container unchanged (accessor snapshot + traversal)",
+            "design_ref": "DESIGN.md section 6 C20", "note": "trusted: exception classification by catch order; base 0 and 1 are outside the stated property (the member initialisers divide by ceil_log2(base) before the check)",
+            "technique": "property-based testing with fault injection into valid inputs; exception-type / unchanged-state oracle"},
     "C07": {"level": "generated-input search with the routing hook: per level the chosen segment must be the responsible one, within EpsRec+1 of the prediction, "
                      "found inside the 2*EpsRec+3 window; level sizes obey floor(m/(2*EpsRec+1))+c",
             "design_ref": "DESIGN.md section 6 C07", "note": _STATIC_NOTE + "; relies on the PGM_INDEX_VERIF route_event hook",
